@@ -386,6 +386,31 @@ class LiveSearch:
                 consumed = [(i, m) for i, m in ((i, self.moved(a, st)) for i, a in enumerate(t["args"])) if m is not None]
                 for i, m in consumed:
                     lvl = st.pop(m)
+                    if n.split("::")[-1] in ("map", "and_then", "map_or", "inspect") and "option::Option" in n and i == 0 and len(t["args"]) >= 2:
+                        # opt.map(f): f receives the Search (if any); f = a function item or a closure defined here
+                        ftb = TermBuilder(self.prog, self.b)
+                        f = ftb.operand(t["args"][-1])
+                        handled = False
+                        if f[0] == "fn" and f[1] in self.prog.bodies:
+                            sm = self.sums.of(f[1], 1)
+                            if not sm["stops"] and lvl == LIVE and record:
+                                self.ev("escapes", bb, "%s -> %s" % (self.name(m), f[1].split("::")[-1]), t.get("line"))
+                            if not sm["joins_writer"]:
+                                st[DETACHED] = 1
+                            handled = True
+                        elif f[0] == "agg" and str(f[1]).startswith("closure:") and self.depth < 2:
+                            cb = self.prog.body(f[1][len("closure:"):])
+                            if cb is not None and cb.arg_count >= 2:
+                                an = LiveSearch(self.prog, cb, pseudo=(2,), depth=self.depth + 1, summaries=self.sums)
+                                an.solve({2: lvl})
+                                bad = [k for k in an.events if k[0] in ("dropped", "escapes", "second_search", "overwritten")]
+                                if bad and record:
+                                    self.ev(bad[0][0], bb, "%s (inside the closure passed to %s)" % (bad[0][1], n.split("::")[-1]), t.get("line"))
+                                if any(DETACHED in an.out_state(xb) for xb in cfg.exits(cb) if xb in an.inn):
+                                    st[DETACHED] = 1
+                                handled = True
+                        if handled:
+                            continue
                     if n in self.prog.bodies and self.b.local_ty(m).startswith("core::option::Option<") and self.depth < 2:
                         # an Option<Search> handed over by value: analyse the callee with its parameter as the holder
                         cb = self.prog.body(n)
